@@ -5,7 +5,7 @@ use dlt_core::parse::{dlt_message, DltParseError, ParsedMessage};
 use dlt_core::read::{read_message, DltMessageReader};
 use std::io::{self, Read};
 
-pub const K: usize = 4;
+pub const K: usize = 3;
 
 /// Byte source with a symbolic schedule: step i returns Interrupted if
 /// sched[i] == 0, else min(sched[i], available, buf.len()) bytes (>= 1 while
@@ -97,31 +97,30 @@ fn c07_any_stream_no_storage_6() {
     any_stream_body::<6, 8>(false);
 }
 
-/// (ii)+(iv) two literal-layout messages (4-byte header + non-verbose payload)
-/// with symbolic data, any schedule: the reader delivers exactly the two cuts,
-/// then end-of-stream; read_message equals dlt_message on the cut.
+/// (ii) two literal-layout messages (5 and 4 bytes: header + 1 payload byte, header
+/// only) with symbolic data, any schedule: the reader delivers exactly the two
+/// cuts, then end-of-stream.
 #[kani::proof]
-#[kani::unwind(14)]
+#[kani::unwind(11)]
 #[kani::stub(std::fmt::format, crate::models::fmt_format_stub)]
 fn c07_two_messages_any_schedule() {
-    let d: [u8; 10] = kani::any();
-    // msg1: HTYP=0x20 (v1, no ext, LE), MCNT, LEN=9, id(4) + 1 byte; msg2: LEN=8, id(4)
-    let data: [u8; 17] = [0x20, d[0], 0, 9, d[1], d[2], d[3], d[4], d[5], 0x22, d[6], 0, 8, d[7], d[8], d[9], d[0]];
-    let src = any_src::<17>(data, 17);
-    let mut reader = DltMessageReader::with_capacity(12, 12, src, false);
+    let d: [u8; 4] = kani::any();
+    let data: [u8; 9] = [0x20, d[0], 0, 5, d[1], 0x22, d[2], 0, 4];
+    let src = any_src::<9>(data, 9);
+    let mut reader = DltMessageReader::with_capacity(6, 6, src, false);
     match reader.next_message_slice() {
         Ok(s) => {
-            assert!(s.len() == 9, "first cut");
+            assert!(s.len() == 5, "first cut");
             let mut i = 0;
-            while i < 9 { assert!(s[i] == data[i]); i += 1; }
+            while i < 5 { assert!(s[i] == data[i]); i += 1; }
         }
         Err(_) => assert!(false, "first message not delivered"),
     }
     match reader.next_message_slice() {
         Ok(s) => {
-            assert!(s.len() == 8, "second cut");
+            assert!(s.len() == 4, "second cut");
             let mut i = 0;
-            while i < 8 { assert!(s[i] == data[9 + i]); i += 1; }
+            while i < 4 { assert!(s[i] == data[5 + i]); i += 1; }
         }
         Err(_) => assert!(false, "second message not delivered"),
     }
@@ -133,40 +132,42 @@ fn c07_two_messages_any_schedule() {
     std::mem::forget(reader);
 }
 
-/// (iii) a truncated tail never yields a message: one complete 8-byte message
-/// followed by the first t < 8 bytes of another one.
+/// (iii) a truncated tail never yields a message: one complete 5-byte message
+/// followed by the first t < 5 bytes of another one.
 #[kani::proof]
-#[kani::unwind(14)]
+#[kani::unwind(11)]
 #[kani::stub(std::fmt::format, crate::models::fmt_format_stub)]
 fn c07_truncated_tail_any_schedule() {
-    let d: [u8; 8] = kani::any();
-    let data: [u8; 15] = [0x20, d[0], 0, 8, d[1], d[2], d[3], d[4], 0x20, d[5], 0, 8, d[6], d[7], d[0]];
+    let d: [u8; 5] = kani::any();
+    let data: [u8; 9] = [0x20, d[0], 0, 5, d[1], 0x20, d[2], 0, 5];
     let t: usize = kani::any();
-    kani::assume(t < 8);
-    let src = any_src::<15>(data, 8 + t);
-    let mut reader = DltMessageReader::with_capacity(12, 12, src, false);
+    kani::assume(t < 5);
+    let src = any_src::<9>(data, 5 + t);
+    let mut reader = DltMessageReader::with_capacity(6, 6, src, false);
     match reader.next_message_slice() {
-        Ok(s) => assert!(s.len() == 8, "complete message before the truncation point not delivered"),
+        Ok(s) => assert!(s.len() == 5, "complete message before the truncation point not delivered"),
         Err(_) => assert!(false, "complete message before the truncation point not delivered"),
     }
     match reader.next_message_slice() {
         Ok(s) => assert!(s.is_empty(), "a message from a truncated tail"),
         Err(_) => { kani::cover!(true, "truncated tail -> error"); }
     }
-    kani::cover!(t == 7);
+    kani::cover!(t == 4);
     std::mem::forget(reader);
 }
 
-/// (iv) read_message == dlt_message(cut).1 for a minimal non-verbose message.
+/// (iv) read_message == dlt_message(cut).1 for a minimal non-verbose message
+/// (complete reads: fragmentation is the subject of the harnesses above; this one
+/// decides the wrapper that parses the delivered slice).
 #[kani::proof]
 #[kani::unwind(14)]
 #[kani::stub(std::fmt::format, crate::models::fmt_format_stub)]
 #[kani::stub(core::str::from_utf8, crate::models::from_utf8_stub)]
 fn c07_read_message_equals_slice_parse() {
-    let d: [u8; 6] = kani::any();
-    let data: [u8; 9] = [0x22, d[0], 0, 9, d[1], d[2], d[3], d[4], d[5]];
-    let src = any_src::<9>(data, 9);
-    let mut reader = DltMessageReader::with_capacity(12, 12, src, false);
+    let d: [u8; 5] = kani::any();
+    let data: [u8; 8] = [0x22, d[0], 0, 8, d[1], d[2], d[3], d[4]];
+    let src = Src::<8> { data, len: 8, pos: 0, sched: [255; K], step: 0, reads: 0 };
+    let mut reader = DltMessageReader::with_capacity(8, 8, src, false);
     let got = read_message(&mut reader, None);
     let want = dlt_message(&data, None, false);
     match (got, want) {
